@@ -10,7 +10,7 @@ Driver handler for the `dml` model (C04).
     cols := * | C <k> <i…>          src := V <w> <nrows> <val…> | S <src> <proj> <optpred>
     proj := * | P <k> <expr…>       expr := L <val> | C <i> | A <i> <int>
     optpred := - | W <pred>
-    pred := k t|f|u | c <opnd> <op> <opnd> | n <opnd> | nn <opnd> | & <pred> <pred> | or <pred> <pred> | ! <pred>
+    pred := k t|f|u | c <opnd> <op> <opnd> | n <opnd> | nn <opnd> | e <opnd> <opnd> | & <pred> <pred> | or <pred> <pred> | ! <pred>
     opnd := C <i> | L <val>         op := eq|ne|lt|le|gt|ge
   reply: impl=<json>	spec=<json>   json = {"obs":[…],"dbs":[[tables after each statement]…]}
 `ddl <kind> <quoted> <name> <noop>`: reply impl=<text|-|raise>	spec=<text|->	finding=<key|->
@@ -68,6 +68,10 @@ def pPred : Nat → P Pred
       pure (.cmp a op b, ts)
     | "n" :: ts => do let (a, ts) ← pOpnd ts; pure (.isNull a, ts)
     | "nn" :: ts => do let (a, ts) ← pOpnd ts; pure (.notNull a, ts)
+    | "e" :: ts => do
+      let (a, ts) ← pOpnd ts
+      let (b, ts) ← pOpnd ts
+      pure (.eqNull a b, ts)
     | "&" :: ts => do
       let (p, ts) ← pPred fuel ts
       let (q, ts) ← pPred fuel ts
